@@ -7,6 +7,8 @@ table of positions, memoised, so a verdict holds for every hash function over th
 """
 from __future__ import annotations
 
+import copy
+
 from happysimulator.sketching.bloom_filter import BloomFilter
 from happysimulator.sketching.count_min_sketch import CountMinSketch
 from happysimulator.sketching.hyperloglog import HyperLogLog, _count_leading_zeros
@@ -59,8 +61,11 @@ def bloom(sym, tier):
             r.bad("bloom_no_false_negative", it)
     merged = BloomFilter(size_bits=70, num_hashes=k, seed=1)
     merged._hash = h
+    snap_a, snap_b = copy.deepcopy(fa._bits), copy.deepcopy(fb._bits)
     merged.merge(fa)
     merged.merge(fb)
+    if fa._bits != snap_a or fb._bits != snap_b:
+        r.bad("merge_leaves_its_argument_unchanged", "bloom", stream)
     if merged._bits != fall._bits:
         r.bad("bloom_merge_equals_concatenation", merged._bits, fall._bits, stream)
     for it, _ in stream:
@@ -98,8 +103,11 @@ def cms(sym, tier):
             r.bad("cms_never_underestimates", it, allk.estimate(it), true[it])
     m = CountMinSketch(width=width, depth=depth, seed=3)
     m._hash = h
+    snap_a, snap_b = copy.deepcopy(a._counters), copy.deepcopy(b._counters)
     m.merge(a)
     m.merge(b)
+    if a._counters != snap_a or b._counters != snap_b:
+        r.bad("merge_leaves_its_argument_unchanged", "cms", {"a_before": snap_a, "a_after": a._counters, "b_before": snap_b, "b_after": b._counters})
     if m._counters != allk._counters or m.item_count != allk.item_count:
         r.bad("cms_merge_equals_concatenation", m._counters, allk._counters)
     if len({(h.memo.get((i, 0)), h.memo.get((i, 1))) for i in ITEMS if (i, 0) in h.memo}) < len([i for i in ITEMS if (i, 0) in h.memo]):
@@ -163,8 +171,11 @@ def hll(sym, tier):
         (a if to_a else b).add(it)
         allk.add(it)
     m = HyperLogLog(precision=4, seed=5)
+    snap_a, snap_b = copy.deepcopy(a._registers), copy.deepcopy(b._registers)
     m.merge(a)
     m.merge(b)
+    if list(a._registers) != list(snap_a) or list(b._registers) != list(snap_b):
+        r.bad("merge_leaves_its_argument_unchanged", "hll")
     if m._registers != allk._registers:
         r.bad("hll_merge_equals_concatenation", m._registers, allk._registers)
     if m.cardinality() != allk.cardinality():
